@@ -31,6 +31,7 @@ type Solver struct {
 	tt        *TermTable
 	cmd       *exec.Cmd
 	in        io.WriteCloser
+	bw        *bufio.Writer
 	out       *bufio.Reader
 	declSent  int
 	cache     map[string]SatResult
@@ -69,6 +70,7 @@ func (s *Solver) start() error {
 		return err
 	}
 	s.in = in
+	s.bw = bufio.NewWriterSize(in, 1<<16)
 	s.out = bufio.NewReaderSize(out, 1<<16)
 	s.declSent = 0
 	for _, t := range s.tt.tab {
@@ -104,17 +106,19 @@ func (s *Solver) send(line string) {
 	if s.logf != nil {
 		fmt.Fprintln(s.logf, line)
 	}
-	io.WriteString(s.in, line)
-	io.WriteString(s.in, "\n")
+	s.bw.WriteString(line)
+	s.bw.WriteByte('\n')
 }
 
 func (s *Solver) readLine() (string, error) {
+	s.bw.Flush()
 	l, err := s.out.ReadString('\n')
 	return strings.TrimSpace(l), err
 }
 
 // readSexp reads a complete (possibly multi-line) s-expression.
 func (s *Solver) readSexp() (string, error) {
+	s.bw.Flush()
 	var sb strings.Builder
 	depth := 0
 	started := false
